@@ -30,6 +30,7 @@ contract('matcher.BaseMatcher.__init__',
          params={'info': 'Ref[InfoLike]', 'type_': 'Ref[info.SectionType]', 'handlers': 'Opt[Ref[list:handlers]]'},
          requires=[Clause('invariant_of(type_)', label='RI-of-the-section-type')],
          ensures=[Clause('self.type == type_ and self.info == info', label='stores-type'),
+                  Clause('not self.finished', carries='C02,C07', label='a-new-matcher-is-not-finished'),
                   Clause('len(keys(self._sectionnames)) == 0', carries='C01', label='no-names-used-yet'),
                   Clause('implies(handlers is not None, self.handlers == val(handlers))', carries='C16',
                          label='handler-list-shared-by-reference'),
@@ -111,6 +112,7 @@ contract('matcher.SectionMatcher.__init__',
                  'handlers': 'Opt[Ref[list:handlers]]'},
          requires=[Clause('invariant_of(type_)', label='RI-of-the-section-type')],
          ensures=[Clause('self.name == name and self.type == type_ and self.info == info', label='stores'),
+                  Clause('not self.finished', carries='C02,C07', label='a-new-matcher-is-not-finished'),
                   Clause("(name is not None and name != '') or info.name == '*'", carries='C01', label='unnamed-only-in-star-slot'),
                   Clause('implies(handlers is not None, self.handlers == val(handlers))', carries='C16',
                          label='handler-list-shared-by-reference'),
@@ -133,7 +135,7 @@ contract('matcher.BaseMatcher.createChildMatcher',
                   Clause('allowed_name(self.type._children[%s][1].name, name)' % CSLOT, carries='C01', label='name-rule'),
                   Clause('result.type == type_ and result.name == name', label='child-for-that-type'),
                   Clause('result.handlers == self.handlers', carries='C16', label='shares-the-handler-list'),
-                  Clause('fresh(result)', carries='C13', label='new-matcher'),
+                  Clause('fresh(result) and not result.finished', carries='C13,C07', label='new-matcher'),
                   Clause('forall(lambda i: implies(0 <= i and i < len(type_._children), '
                          'slot_empty(type_._children[i][1], result._values)))', carries='C01,C02',
                          label='child-starts-empty')],
@@ -197,6 +199,8 @@ STEP = [At("child_ready(ci) and implies(not isa(ci, 'info.SectionInfo'), key_kin
            label='this-child-converted-as-its-kind-demands')]
 
 
+HANDLER_ENTRIES = ('len(self.handlers.items) == len(old(self.handlers.items)) + handler_count(self.type, 0) and '
+                   'is_prefix(old(self.handlers.items), self.handlers.items)')
 ENTRY_SHAPE = "forall('str', lambda x: implies(x in %s, is_alt(%s[x], 'lst') == (ci.maxOccurs > 1)))" % (MM, MM)
 COMPLETED = ('forall(lambda i: implies(0 <= i and i < len(self.type._children), '
              'self._values[%s] == complete_slot(self.type._children[i][1], self._values[%s])))' % (ATTR_I, ATTR_I))
@@ -222,14 +226,21 @@ contract('matcher.BaseMatcher.constuct', returns='Ref[matcher.SectionValue]', fr
          modifies=['self._values', 'self.handlers.items', 'self.finished'],
          ghost_entry=[('finished', 'True')], asserts=STEP,
          ensures=[Clause(CONV_ALL, carries='C02', label='every-attribute-converted-as-its-kind-demands'),
-                  Clause('keys(self._values) == keys(old(self._values))', carries='C02', label='same-attributes')] + VALUE_OF,
+                  Clause('keys(self._values) == keys(old(self._values))', carries='C02', label='same-attributes'),
+                  Clause(HANDLER_ENTRIES, carries='C16', label='one-handler-entry-per-handler-bearing-child-appended')] + VALUE_OF,
          raises=[Raise('ZConfig.DataConversionError', then=[Clause('exc.has_lineno')], carries='C01,C08',
                        label='a-value-does-not-convert')],
+         hints=['handler_count(self.type, 0)'],
          loops=[Loop(invariant=[Clause(C_DONE, label='children-so-far-converted'),
+                                Clause('len(self.handlers.items) + handler_count(self.type, _i0) == '
+                                       'len(old(self.handlers.items)) + handler_count(self.type, 0) and '
+                                       'is_prefix(old(self.handlers.items), self.handlers.items)',
+                                       label='one-handler-entry-per-handler-bearing-child-so-far'),
                                 Clause(C_TODO, label='later-children-untouched'),
                                 Clause('keys(self._values) == keys(old(self._values))', label='same-attributes'),
                                 Clause('self.finished'),
                                 ] + MI[1:],
+                     hints=['handler_count(self.type, _i0)'],
                      locals={'name': 'Opt[str]', 'ci': 'Ref[info.BaseInfo]', 'attr': 'str', 'v': 'Slot'},
                      modifies=['self._values', 'self.handlers.items']),
                 # multisection: the section values in file order, each through its own section datatype
@@ -257,8 +268,8 @@ DONE_J = ('forall(lambda j: implies(0 <= j and j < _i0, '
           'self._values[%s] == complete_slot(self.type._children[j][1], old(self._values)[%s])))' % (J_ATTR, J_ATTR, J_ATTR))
 TODO_J = ('forall(lambda j: implies(_i0 <= j and j < len(self.type._children), '
           'self._values[%s] == old(self._values)[%s]))' % (J_ATTR, J_ATTR))
-NOT_FINISHED = Clause('not self.finished', assumed=True, label='finished-at-most-once (protocol of the parser: every '
-                      'section it opens is closed exactly once; ASSUMED at the call sites, see DESIGN 10.8)')
+NOT_FINISHED = Clause('not self.finished', label='finished-at-most-once (established by the callers: the parser closes every '
+                      'section it opens exactly once, DESIGN 10.8)')
 contract('matcher.BaseMatcher.finish', returns='Ref[matcher.SectionValue]', fresh_result=True,
          requires=[NOT_FINISHED],
          modifies=['self._values', 'self.handlers.items', 'self.finished'],
@@ -276,7 +287,8 @@ contract('matcher.BaseMatcher.finish', returns='Ref[matcher.SectionValue]', fres
                          'conv_ok(self.type._children[i][1], complete_slot(self.type._children[i][1], old(self._values)[%s]), '
                          'self._values[%s])))' % (ATTR_I, ATTR_I), carries='C02',
                          label='value-tree-from-collected-values-and-defaults'),
-                  Clause('keys(self._values) == keys(old(self._values))', carries='C02', label='same-attributes')] + VALUE_OF,
+                  Clause('keys(self._values) == keys(old(self._values))', carries='C02', label='same-attributes'),
+                  Clause(HANDLER_ENTRIES, carries='C16', label='one-handler-entry-per-handler-bearing-child-appended')] + VALUE_OF,
          raises=[Raise('ZConfig.DataConversionError', then=[Clause('exc.has_lineno')], carries='C01,C08',
                        label='a-value-does-not-convert'),
                  Raise('ZConfig.ConfigurationError', when='first_incomplete(self.type, self._values, 0) >= 0',
@@ -300,7 +312,10 @@ contract('matcher.SchemaMatcher.finish', returns='Opaque[PyVal]',
                      label='schema-datatype-applied-to-the-top-level-value')],
          ensures=[Clause('implies(self.type.handler is not None, len(self.handlers.items) >= 1 and '
                          'self.handlers.items[-1] == (val(self.type.handler), result))', carries='C16',
-                         label='schema-level-handler-entry-last-with-the-converted-top-value')],
+                         label='schema-level-handler-entry-last-with-the-converted-top-value'),
+                  Clause('len(self.handlers.items) == len(old(self.handlers.items)) + handler_count(self.type, 0) + '
+                         '(1 if self.type.handler is not None else 0) and is_prefix(old(self.handlers.items), self.handlers.items)',
+                         carries='C16', label='one-entry-per-handler-bearing-item-of-the-schema-plus-the-schema-level-one')],
          raises=[Raise('ZConfig.ConfigurationError+', carries='C01', label='not-conforming'),
                  Raise('ValueError', label='the schema datatype itself raised (passes through unchanged, C07)')])
 
